@@ -282,4 +282,110 @@ theorem C04_real (cfg : Cfg) (hlex : LexCfg cfg) (hne : cfg.sels.isEmpty = false
   simp only [Except.ok.injEq] at this
   exact ⟨evs, hev, hsteps, vm', by rw [← this]; exact hrun, hfin⟩
 
+/-! ## G3, first rung — package scope's invariant and specification at the states of the byte-level run -/
+
+open LolHtml.Spec.Scope (expected openStep WfEvent OpenElem) in
+open LolHtml.Lemmas.Scope (Inv) in
+/-- **C05_real_event_other.** Lexer-mode configuration, any scripts; after successful `write`s of ANY chunks the
+controller of the byte-level run is in a state whose projection satisfies package scope's invariant for some
+list `sp` of open elements (so C05_refcount … hold of it), and the text / comment / doctype token the
+dispatcher delivers next invokes EXACTLY the handlers package scope's specification promises
+(`Spec.Scope.expected`: text / comment handlers registered with a selector iff the token lies inside an element
+matched by that selector — `C05_scope_text`, `C05_scope_comment` —, document-level ones always, in registration
+order — `C05_order`). -/
+theorem C05_real_event_other (cfg : Cfg) (hlex : LexCfg cfg) (settings : Settings) (chunks : List Bytes)
+    (hok : ∀ x ∈ (writeAll (genWorld cfg) (Rewriter.new (genWorld cfg) (FullSt.init cfg) settings) chunks).2,
+      x = CallRes.ok)
+    (tok : Model.Token) (hk : (CtlEv.other tok).WellKinded) (script : ElemScript) (ord : Nat) :
+    ∃ sp, Inv cfg.selRegs cfg.docRegs sp (scopeState (afterWrites cfg settings chunks).stream.disp.ctl.1) ∧
+      ∃ invs, Controller.step script (scopeState (afterWrites cfg settings chunks).stream.disp.ctl.1) ord (scopeEvOther tok) =
+          .ok (scopeState (ctlStep cfg (afterWrites cfg settings chunks).stream.disp.ctl.1 (.other tok)).1, invs) ∧
+        invs = expected cfg.selRegs cfg.docRegs sp ord (scopeEvOther tok) ∧
+        Inv cfg.selRegs cfg.docRegs (openStep script cfg.selRegs sp ord (scopeEvOther tok))
+          (scopeState (ctlStep cfg (afterWrites cfg settings chunks).stream.disp.ctl.1 (.other tok)).1) := by
+  obtain ⟨hJ, _⟩ := Full_events_writes cfg hlex settings chunks hok
+  obtain ⟨sp, hinv⟩ := hJ.1.scope
+  obtain ⟨invs, hstep⟩ := Full_refines_scope_other cfg (afterWrites cfg settings chunks).stream.disp.ctl hJ.1.fault tok hk script ord
+  have hwf : WfEvent cfg.selRegs.length (scopeEvOther tok) := by
+    cases tok <;> simp [scopeEvOther, WfEvent]
+  obtain ⟨h1, h2⟩ := Full_event_C05 cfg _ _ sp hinv script ord _ invs hwf hstep
+  exact ⟨sp, hinv, invs, hstep, h1, h2⟩
+
+/-! ## full statements NOT proved -/
+
+/-- the `EvB` list as a `CtlEv` list: a delivered token is an `.other` event, an undelivered one is no event -/
+def toCtlEvs : List EvB → List CtlEv
+  | [] => []
+  | .ev e :: es => e :: toCtlEvs es
+  | .tok true t :: es => .other t :: toCtlEvs es
+  | .tok false _ :: es => toCtlEvs es
+
+/-- **G1 in the `ctlSteps` form, every configuration** (NOT proved). Two things are missing. (1) Lexer mode:
+`stepsB … evs = ctlSteps … (toCtlEvs evs)` needs `b = flagFor s.flags tok` at every token step — the dispatcher's
+copy of the TEXT / COMMENTS / DOCTYPES flags equals the controller's (`St.flags`); true (tokens do not touch the
+three vectors, `token_sticky`'s argument per flag; every tag event refreshes the copy) but a DISPATCHER-level
+invariant, to be carried through `handleTag_lexer_gen` / `handleNonTag_lexer_gen` next to `Idle`
+(Lemmas/StickySync.lean per flag instead of for `Flags.Sticky`). (2) Scanner mode: `Full_scan_opsX` (Thm/Full14.lean)
+is the operation level; the event list has to be threaded through `InvY`'s four protocol states. -/
+def Full_events_statement : Prop :=
+  ∀ (cfg : Cfg) (settings : Settings) (chunks : List Bytes),
+    (∀ x ∈ (writeAll (genWorld cfg) (Rewriter.new (genWorld cfg) (FullSt.init cfg) settings) chunks).2, x = CallRes.ok) →
+    ∃ evs : List CtlEv, (∀ e ∈ evs, EvOk e) ∧
+      ctlSteps cfg (St.init cfg) evs = ((afterWrites cfg settings chunks).stream.disp.ctl.1, none)
+
+/-- **C04_real, every configuration** (NOT proved; `C04_real` is the `LexCfg` case): follows from
+`Full_events_statement` by `Full_vm_run` / `vm_runB`. -/
+def C04_real_statement : Prop :=
+  ∀ (cfg : Cfg) (settings : Settings) (chunks : List Bytes), cfg.sels.isEmpty = false →
+    SelVM.selsOk cfg.selLists = true →
+    (∀ x ∈ (writeAll (genWorld cfg) (Rewriter.new (genWorld cfg) (FullSt.init cfg) settings) chunks).2, x = CallRes.ok) →
+    ∃ evs : List CtlEv, (∀ e ∈ evs, EvOk e) ∧
+      ctlSteps cfg (St.init cfg) evs = ((afterWrites cfg settings chunks).stream.disp.ctl.1, none) ∧
+      ∃ vm', (SelVM.Vm.new (SelVM.Ast.ofSelectors cfg.selLists) cfg.esi).runAux (evs.filterMap selEvOf) 0 [] =
+          .ok (vm', Spec.Css.run Spec.Css.cssLeaf cfg.selLists cfg.esi (evs.filterMap selEvOf)) ∧
+        (afterWrites cfg settings chunks).stream.disp.ctl.1.vm = some vm'
+
+/-- **C04_real_chunk_independent** (NOT proved): the hit set does not depend on the chunking. `C02_real` compares
+SINK BYTES of two chunkings, which do not determine the hits; what is needed is chunk invariance of the tag-event
+list itself — the lexeme stream of package chunk's `ParseRel` (same lexemes up to text-chunk boundaries), composed
+with "the tag events are a function of the tag lexemes" (`handleTag_lexer_gen`: name, namespace, attribute buffer
+of the lexeme). -/
+def C04_real_chunk_independent_statement : Prop :=
+  ∀ (cfg : Cfg) (settings : Settings) (cs₁ cs₂ : List Bytes), LexCfg cfg → cs₁.flatten = cs₂.flatten →
+    (∀ x ∈ (writeAll (genWorld cfg) (Rewriter.new (genWorld cfg) (FullSt.init cfg) settings) cs₁).2, x = CallRes.ok) →
+    (∀ x ∈ (writeAll (genWorld cfg) (Rewriter.new (genWorld cfg) (FullSt.init cfg) settings) cs₂).2, x = CallRes.ok) →
+    ∃ evs₁ evs₂ : List EvB,
+      stepsB cfg (St.init cfg) evs₁ = ((afterWrites cfg settings cs₁).stream.disp.ctl.1, none) ∧
+      stepsB cfg (St.init cfg) evs₂ = ((afterWrites cfg settings cs₂).stream.disp.ctl.1, none) ∧
+      tagEvents evs₁ = tagEvents evs₂
+
+/-! ## non-vacuity -/
+
+example : SelVM.selsOk lexAuxCfg.selLists = true := by decide
+
+theorem lexAux_writes_ok :
+    (writeAll (genWorld lexAuxCfg) (Rewriter.new (genWorld lexAuxCfg) (FullSt.init lexAuxCfg) {}) sampleChunks).2 =
+      [.ok, .ok] := by decide +kernel
+
+/-- `C04_real` applies to the mutating lexer-mode configuration `lexAuxCfg` (`[a]` — the InfoRequest path —,
+`set_attribute`, `after`, `on_end_tag`; a document-level comment observer) on `<div a=b>x<` , `/div>y` -/
+example : ∃ evs : List EvB, (∀ e ∈ evs, e.Ok) ∧
+    stepsB lexAuxCfg (St.init lexAuxCfg) evs = ((afterWrites lexAuxCfg {} sampleChunks).stream.disp.ctl.1, none) ∧
+    ∃ vm', (SelVM.Vm.new (SelVM.Ast.ofSelectors lexAuxCfg.selLists) lexAuxCfg.esi).runAux (tagEvents evs) 0 [] =
+        .ok (vm', Spec.Css.run Spec.Css.cssLeaf lexAuxCfg.selLists lexAuxCfg.esi (tagEvents evs)) ∧
+      (afterWrites lexAuxCfg {} sampleChunks).stream.disp.ctl.1.vm = some vm' :=
+  C04_real lexAuxCfg ⟨_, List.mem_cons_self, Or.inr (Or.inl rfl)⟩ (by decide) (by decide) {} sampleChunks
+    (fun x hx => by rw [lexAux_writes_ok] at hx; simp at hx; exact hx)
+
+/-- the event list of that run, and what the VM / CSS matching say on it: selector 0 (`[a]`) hits start tag 0 -/
+def lexAuxEvs : List EvB :=
+  [.ev (.start (.bytes [100, 105, 118]) .html ⟨[60,100,105,118,32,97,61,98,62], [⟨⟨5,6⟩, ⟨7,8⟩, ⟨5,8⟩⟩], false⟩
+      (.startTag [100,105,118] [([97], [98], ⟨⟨5,6⟩, ⟨7,8⟩, ⟨5,8⟩⟩)] .html false [60,100,105,118,32,97,61,98,62] ⟨0,9⟩ 0)),
+   .tok false (.text [120] .data false ⟨9,10⟩),
+   .ev (.end_ (.bytes [100, 105, 118]) (.endTag [100,105,118] [60,47,100,105,118,62] ⟨10,16⟩))]
+
+example : (stepsB lexAuxCfg (St.init lexAuxCfg) lexAuxEvs).2 = none := by decide +kernel
+example : Spec.Css.run Spec.Css.cssLeaf lexAuxCfg.selLists lexAuxCfg.esi (tagEvents lexAuxEvs) = [(0, 0)] := by
+  decide +kernel
+
 end LolHtml.Thm.Full
